@@ -195,3 +195,5 @@ for _p, _gens in {
     PROPS[_p]["structural"] = list(PROPS[_p].get("structural", [])) + _gens
 for _p in PROPS:
     PROPS[_p]["structural"] = list(PROPS[_p].get("structural", [])) + [_S.decorator_frames]
+for _p in ("C15", "C16", "C14", "C20"):
+    PROPS[_p]["structural"] = list(PROPS[_p].get("structural", [])) + [_S.exception_hierarchy_frames]
